@@ -24,3 +24,13 @@ void * memset(void * dst, int c, size_t n) {
     }
     return dst;
 }
+int nondet_int(void);
+/* memcmp: a zero result means the ranges agree (at the arbitrary witness index); a non-zero result says nothing */
+int memcmp(const void * a, const void * b, size_t n) {
+    int r = nondet_int();
+    if (n) {
+        __CPROVER_assert(__CPROVER_r_ok(a, n) && __CPROVER_r_ok(b, n), "memcmp ranges readable");
+        __CPROVER_assume(r != 0 || vg_mem_i >= n || ((const uint8_t *) a)[vg_mem_i] == ((const uint8_t *) b)[vg_mem_i]);
+    }
+    return r;
+}
